@@ -200,6 +200,9 @@ class SJ(Sym):
     def sym_isinstance(self, ex, cls):
         return SBool(isinst(self.e, cls))
 
+    def sym_type(self, ex):
+        return STypeOfJ(self.e)
+
     def sym_truth(self, ex):
         a = self.e
         return z3.If(is_num(a), num(a) != 0, z3.If(J.is_S(a), z3.Length(J.s(a)) > 0, z3.If(J.is_T(a), tnonempty(J.t(a)), J.is_Ph(a))))
@@ -219,6 +222,31 @@ class SJ(Sym):
 
 
 tnonempty = z3.Function("tnonempty", Tup, z3.BoolSort())
+
+
+class STypeOfJ(Sym):
+    """type(v) of a J value: the exact class (type(True) is bool, not int)"""
+
+    def __init__(self, e):
+        self.e = e
+
+    def exact(self, cls):
+        a = self.e
+        table = {int: J.is_I(a), bool: J.is_B(a), float: J.is_F(a), str: J.is_S(a), tuple: J.is_T(a), type(None): J.is_Null(a)}
+        if cls in table:
+            return table[cls]
+        if isinstance(cls, type):
+            return z3.BoolVal(False)
+        raise Unsupported("type(value) compared with something that is not a class")
+
+    def sym_eq(self, ex, other):
+        return SBool(self.exact(other))
+
+    def sym_is(self, ex, other):
+        return SBool(self.exact(other))
+
+    def sym_hashable(self):
+        return True
 
 
 class SReal(Sym):
